@@ -214,6 +214,32 @@ func TestAmplificationCatalogue(t *testing.T) {
 				add(fmt.Sprintf("array/dictionary DAG depth %d fan-out %d below %s", g[0], g[1], where), func() []byte { return resolveDAG(g[0], g[1], where) })
 			}
 		}
+		// a lot of text: one very long string, very many short strings on one line, very many lines
+		bigPage := func(content string) []byte {
+			return rawPDF(map[int]string{
+				1: "<< /Type /Catalog /Pages 2 0 R >>", 2: "<< /Type /Pages /Kids [3 0 R] /Count 1 >>",
+				3: "<< /Type /Page /Parent 2 0 R /MediaBox [0 0 612 792] /Resources << /Font << /F1 4 0 R >> >> /Contents 5 0 R >>",
+				4: helv, 5: stream("", content)}, 1)
+		}
+		add("one Tj string of 600 KB", func() []byte {
+			return bigPage("BT /F1 12 Tf 72 700 Td (" + strings.Repeat("lorem ", 100000) + ") Tj ET")
+		})
+		// (line assembly is quadratic in the number of fragments of ONE line: 30 000 one-letter strings on a line cost
+		// 1.5-4.5 s per operation, measured; pages do not have such lines and the case would only test the ceiling)
+		add("8 000 one-letter Tj on one line", func() []byte { return bigPage("BT /F1 12 Tf 72 700 Td " + strings.Repeat("(a) Tj ", 8000) + "ET") })
+		add("one TJ array of 16 000 elements", func() []byte {
+			return bigPage("BT /F1 12 Tf 72 700 Td [" + strings.Repeat("(ab) -20 ", 8000) + "] TJ ET")
+		})
+		add("20 000 lines of text", func() []byte {
+			var sb strings.Builder
+			sb.WriteString("BT /F1 1 Tf 1 0 0 1 72 790 Tm 0.03 TL ")
+			for i := 0; i < 20000; i++ {
+				fmt.Fprintf(&sb, "(line%d) Tj T* ", i)
+			}
+			sb.WriteString("ET")
+			return bigPage(sb.String())
+		})
+		add("20 000 text objects at the same place", func() []byte { return bigPage(strings.Repeat("BT /F1 12 Tf 72 700 Td (same) Tj ET ", 20000)) })
 		for _, c := range [][3]int{{2, 0, 1}, {3, 0, 2}, {3, 1, 2}, {5, 0, 4}, {5, 2, 3}, {6, 1, 4}, {40, 0, 39}, {40, 17, 30}} {
 			c := c
 			add(fmt.Sprintf("%d incremental updates, the /Prev of update %d names update %d (a cycle of length %d)", c[0], c[1], c[2], c[2]-c[1]+1), func() []byte { return prevCycle(c[0], c[1], c[2]) })
